@@ -203,7 +203,7 @@ def infer_sub_map(pts, m, scales, origin):
 
 
 # ------------------------------------------------------------------------------ user-function library
-FUNC_KINDS = ("const", "affine", "gauss", "fourier", "clipped", "cusp", "negative", "zero_at_some_centres")
+FUNC_KINDS = ("const", "affine", "gauss", "fourier", "clipped", "cusp", "negative", "zero_at_some_centres", "step_int", "mask_bool")
 
 
 def make_func(rng, m, scales, origin, kind=None, zero_all_centres=False):
@@ -259,6 +259,29 @@ def make_func(rng, m, scales, origin, kind=None, zero_all_centres=False):
         sig = float(rng.uniform(0.4, 1.5))
         d.update(u0=u0, v0=v0, sigma=sig, mag=1.1 * amp)
         base = lambda u, v: -amp * (0.1 + np.exp(-((u - u0) ** 2 + (v - v0) ** 2) / (2 * sig ** 2)))
+    elif kind in ("step_int", "mask_bool"):
+        # piecewise-constant user functions that return an INTEGER-typed (0 / k) or BOOLEAN array (top-hat, indicator of a region):
+        # the binned value is the fraction of the pixel's sub-points inside the region (times k). The level set is kept at least
+        # 1e-6 (relative) away from every sub-point of every partition 1..16 of this mask, so no value depends on rounding.
+        g = fourier_params()
+        smooth_mag = d["mag"]
+        pts = np.concatenate([ref_subgrid(m, scales, origin, np.full(int((~m).sum()), sb)) for sb in range(1, 17)])
+        pu, pv = (pts[:, 0] - origin[0]) / scales[0], (pts[:, 1] - origin[1]) / scales[1]
+        gv = g(pu, pv)
+        thr = None
+        for _ in range(200):
+            cand = float(rng.uniform(np.min(gv), np.max(gv))) if np.max(gv) > np.min(gv) else float(np.min(gv)) - smooth_mag
+            if np.min(np.abs(gv - cand)) > 1e-6 * smooth_mag:
+                thr = cand
+                break
+        if thr is None:
+            thr = float(np.max(gv)) + smooth_mag
+        kint = int(rng.choice([1, 2, 5]))
+        d.update(threshold=thr, returns=("int64 array with values 0/%d" % kint) if kind == "step_int" else "bool array", mag=float(kint if kind == "step_int" else 1))
+        if kind == "step_int":
+            base = lambda u, v: np.where(g(u, v) > thr, kint, 0).astype(np.int64)
+        else:
+            base = lambda u, v: g(u, v) > thr
     else:
         raise ValueError(kind)
 
@@ -279,7 +302,7 @@ def make_func(rng, m, scales, origin, kind=None, zero_all_centres=False):
     def f(g):
         g = np.asarray(g, dtype=float).reshape(-1, 2)
         u, v = uv(g)
-        out = np.asarray(base(u, v), dtype=float)
+        out = np.asarray(base(u, v)) if kind in ("step_int", "mask_bool") else np.asarray(base(u, v), dtype=float)
         if zero_at is not None and len(zero_at):
             near = (np.abs(g[:, None, 0] - zero_at[None, :, 0]) < rad) & (np.abs(g[:, None, 1] - zero_at[None, :, 1]) < rad)
             out = np.where(near.any(axis=1), 0.0, out)
